@@ -252,6 +252,56 @@ def arrival_at_empty_check_case(link):
     return {"injected": state["injected"], "delivered_before_the_next_block": delivered_in_time, "delivered_in_the_end": list(link.app), "expected_first": [first, late]}
 
 
+def reenable_in_handler_case():
+    """The handler of a message takes the endpoint down and up again (disable(), enable()) and keeps running for a while; meanwhile
+    the peer connects again, selects and sends two messages.  They are handed to the application once, in order, after the first
+    handler has returned - never two callbacks at a time - and the Select.req is answered."""
+    others = len([t for t in threading.enumerate() if "protocol_dispatcher" in t.name and t.is_alive()])
+    link = Link()
+    link.up()
+    state = {"reenabled": False}
+    first, second, third = (0x7101, 7001), (0x7102, 7002), (0x7103, 7003)
+
+    def hook(data):
+        try:
+            marker = int(link.sf.decode(data["message"]).get()[0])
+        except Exception:  # noqa: BLE001
+            return
+        if marker == first[1] and not state["reenabled"]:
+            link.proto.disable()
+            link.proto.enable()
+            state["reenabled"] = True
+            time.sleep(0.6)
+            state["first_returned_at"] = time.monotonic()
+
+    # the hook runs inside the application callback, before Link._on_app records the message
+    link.proto.events.message_received -= link._on_app
+    link.proto.events.message_received += lambda data: (hook(data), link._on_app(data))
+    try:
+        link.rig.conn.feed(link.reply_frame(*first))
+        deadline = time.monotonic() + 5
+        while not state["reenabled"] and time.monotonic() < deadline:
+            time.sleep(0.002)
+        if not state["reenabled"]:
+            raise common.Wedged("the handler did not get through disable() and enable()")
+        n0 = len(link.rig.conn.sent)
+        link.rig.conn.connect()
+        link.rig.conn.feed(gemrig.ctrl_frame(1, 0x200) + link.reply_frame(*second) + link.reply_frame(*third))
+        deadline = time.monotonic() + 8
+        while len(link.app) < 3 and time.monotonic() < deadline:
+            time.sleep(0.005)
+        link.rig.settle()
+        frames = protorig_split(link.rig.conn.sent[n0:])
+        select_rsp = [b.header.system for b in frames if b.header.s_type.value == 2]
+        # (the span of the first message does not contain the hook: what counts is whether a later callback began before the hook returned)
+        started_early = [m for (m, sp) in zip(link.app, link.spans) if m != first and sp[0] < state.get("first_returned_at", 0) - 0.0005]
+        overlaps = len(started_early) + sum(1 for i in range(1, len(link.spans)) if link.spans[i][0] < link.spans[i - 1][1])
+        return {"delivered": list(link.app), "expected": [first, second, third], "select_rsp_for": select_rsp, "overlapping_callbacks": overlaps,
+                "dispatcher_threads": len(link.dispatcher_threads()) - others, "started_before_the_first_handler_returned": started_early}
+    finally:
+        link.rig.stop()
+
+
 def stale_queue_case(link):
     """A Linktest.req of ours that is never answered (T6 runs out); later a data message arrives that happens to carry the same
     system bytes: it is an ordinary inbound message and must reach the application."""
@@ -471,6 +521,11 @@ def run(tier, replay=None):
                 report.violation({"kind": "counterexample", "what": "a message queued for dispatch at the moment the dispatcher found its queue empty was not handed to the application until a later message arrived", **inj}, True, tag="lostwakeup")
             stale = stale_queue_case(link)
             cov["after_unanswered_linktest"] = stale
+            re = reenable_in_handler_case()
+            cov["reenable_inside_a_handler"] = re
+            if re["delivered"] != re["expected"] or re["overlapping_callbacks"] or re["select_rsp_for"] != [0x200] or re["dispatcher_threads"] > 1:
+                report.violation({"kind": "counterexample", "what": "a handler that takes the endpoint down and up again (disable(), enable()) and keeps running: the messages of the next connection "
+                                  "were not handed to the application once, in order, one at a time after it, or the Select.req was not answered", **re}, True, tag="reenable")
             if stale.get("system") is not None and stale.get("delivered") != stale.get("sent"):
                 report.violation({"kind": "counterexample", "what": "an inbound data message carrying the system bytes of an earlier, unanswered Linktest.req was not handed to the application", **stale}, True, tag="stalequeue")
         finally:
